@@ -406,6 +406,8 @@ static int d_calpath(fx_t *F, int v, dv_t *o)
     n = dvp(o, n, F->path_none, X_FAIL, EM_NOENT, "nonexistent");
     n = dvp(o, n, F->path_badcal, X_FAIL, EM_BADMSG, "syntax-error");
     n = dvp(o, n, F->path_vercal, X_FAIL, EM_PROTO, "version-99");
+    /* opens, but every read fails (EISDIR): a system error, not syntax */
+    n = dvp(o, n, "/", X_FAIL, EM_SYS | EM_LATE, "directory");
     return n;
 }
 static int d_savepath(fx_t *F, int v, dv_t *o)
@@ -645,6 +647,7 @@ static int d_vdloadpath(fx_t *F, int v, dv_t *o)
     n = dvp(o, n, F->path_s2p, X_ALT, 0, "s2p");
     n = dvp(o, n, F->path_none, X_FAIL, EM_NOENT, "nonexistent");
     n = dvp(o, n, F->path_bad, X_FAIL, EM_BADMSG, "syntax-error");
+    n = dvp(o, n, "/", X_FAIL, EM_SYS | EM_LATE, "directory");
     return n;
 }
 static int d_vdsavepath(fx_t *F, int v, dv_t *o)
